@@ -377,8 +377,8 @@ def run_cycle(rows, fmt, wd: Path) -> Outcome:
         except MachineryError:
             raise
         except Exception as e:  # noqa: BLE001  (any exception of the code under test is an observation)
-            if phase == "build":
-                raise MachineryError(f"the generated table is not a valid parameter set: {e!r} {rows}") from e
+            # also in the build phase: the tables of the specification are valid parameter sets by construction, so a library that refuses to
+            # build one is observed and reported like any other failing step
             out.exc = (phase, type(e).__name__, str(e).splitlines()[0][:200] if str(e) else "")
     return out
 
